@@ -2,6 +2,13 @@
 
 # pid -> dict(category, text, note, technique, design_ref)
 CLAIMED = {
+    "C24": dict(
+        category="proof",
+        technique="Lean 4 induction over arbitrary peer message lists on an effect-trace model of the SCU wrappers (lock, reactor checkpoint, abort, yields) against a hand-written spec of the documented results + differential run of the real generators driven in-process vs the Lean driver",
+        text="Kernel-checked for every peer message list: C-FIND yields each valid response up to and including the first final one exactly once and in order (Repository Query 0xB001 non-final), gives (Dataset(), None) and aborts exactly on timeout/invalid/unexpected, never yields with the AE lock held, restores the reactor checkpoint, consumes nothing after the stop. C-GET/C-MOVE: same, proved for every peer whose consumed messages contain no C-STORE response, no response of the other retrieve service and no C-STORE request without SOP class (partial; three _neg witnesses = known findings); lock freedom at every yield, stop rule and checkpoint-iff-nothing-raised for all peers. Single-response calls (C-ECHO, C-STORE, N-*): documented value + abort discipline for every peer whose first message is not a valid response of another message type (partial; two _neg witnesses = known findings). The real send_* generators are driven in-process with a scripted DIMSE provider (no sockets), the AE lock and checkpoint sampled at every next(), and compared with the Lean driver; every clause of the property is also evaluated on the real outputs.",
+        note="partial: the reactor thread, real DIMSE provider/queues and sockets are not modelled; abort() is replaced by a recorder; identifiers abstracted to absent/empty/decodable/undecodable; message-id matching not modelled. Trusted: Lean kernel, harness/scu_rig.py, my reading of the docstrings (Spec/Scu.lean).",
+        design_ref="§5 C24",
+    ),
     "C03": dict(
         category="proof",
         technique="Lean 4 induction over an adversarial read-size oracle (model of AssociationSocket.recv + _read_pdu_data framing) + differential run over real socketpairs with recorded read results",
@@ -20,7 +27,7 @@ CLAIMED = {
         category="proof",
         technique="Lean 4 theorems over tables regenerated from status.py (translator) + exhaustive differential run of code_to_category vs the Lean model",
         text="Kernel-checked: the extension of the real code_to_category on all 65536 codes (regenerated every run) equals the model table, is a partition into runs carrying one of six categories, and every entry of every *_STATUS table regenerated from the module lies in a run of the same category; SCU finality is a function of the category (with the documented 0xB001 exception). The check also runs all 65536 codes through the real function and the Lean driver and re-evaluates every table entry on the implementation.",
-        note="Trusted: Lean kernel; translator reflection of pynetdicom.status (prints what it reads); SCP-side finality is covered behaviourally under C20.",
+        note="Trusted: Lean kernel; translator reflection of pynetdicom.status (prints what it reads); SCU finality is additionally exercised on the real send_c_find/get/move generators for every table code (harness/finality.py); SCP side under C20.",
         design_ref="§5 C28",
     ),
 }
